@@ -15,7 +15,7 @@ def gen_consts(steps, **over):
              OutAliases=['oa1', 'oa2'], Vals=['v1', 'v2'], Excs=['E1'],
              Bodies=['plain', 'nestSame', 'nestOther'], InnerCall=('ia1', 2),
              OutResults=[('val', 'v1'), ('val', 'v2'), ('exc', 'E1')], Ends=['ret', 'raise'],
-             Classes=[K('K1', copyOn=True), K('K1c')], Ctl=['mutate'],
+             Classes=[K('K1', copyOn=True), K('K1c')], Ctl=['mutate', 'subop'],
              MaxSteps=steps, MaxRuns=2, MaxRecs=1, Modes=['same'])
     c.update(over)
     return consts(**c)
